@@ -254,6 +254,10 @@ pub trait Property: Sync {
     fn case_timeout_s(&self) -> u64 {
         120
     }
+    /// bound on proptest's shrinking (lower it when one case is expensive, e.g. spawns a process)
+    fn max_shrink_iters(&self) -> u32 {
+        3000
+    }
 }
 
 pub struct RunOutcome {
@@ -394,7 +398,7 @@ pub fn run_property<P: Property>(prop: &P, tier: Tier, seed: u64) -> RunOutcome 
                     cases: per_worker,
                     failure_persistence: None,
                     rng_seed: RngSeed::Fixed(mix(mix(seed, hash_of(id)), w as u64)),
-                    max_shrink_iters: 3000,
+                    max_shrink_iters: prop.max_shrink_iters(),
                     ..Config::default()
                 };
                 let mut runner = TestRunner::new(config);
